@@ -238,6 +238,10 @@ def replay_group(args):
                     what.append(f"it {snap[1]} -> {it_arg}")
                 if not deep_equal(data, snap[0]):
                     what.append("data dictionary changed")
+                if param != snap[3]:
+                    what.append(f"param {snap[3]} -> {param}")
+                    param.clear()
+                    param.update(snap[3])
                 findings.append(("ArgsUntouched", {"clause": "ArgsUntouched", "call": "save_data", "arg": what[0].split(" ")[0]},
                                  f"save_data modified its caller's arguments: {'; '.join(what)}", {"hist": hist, "op": n}))
         real, garbage = decode_disk(datapath)
@@ -286,6 +290,7 @@ def replay_group(args):
             elif kind == "numpy":
                 it_arg = np.array(it_arg, dtype=np.int64)
             snap = (list(it_arg), list(vars_arg))
+            psnap = dict(param)
             try:
                 res = R.read_data(param, it=it_arg, vars=vars_arg, rl=qy["rl"])
             except Exception as ex:
@@ -293,6 +298,11 @@ def replay_group(args):
                                  f"read_data(it={qy['it']} given as {kind}, vars={qy['vars']}, rl={qy['rl']}) raised {type(ex).__name__}: {ex}",
                                  {"hist": hist, "query": qy}))
                 continue
+            if param != psnap:
+                findings.append(("ArgsUntouched", {"clause": "ArgsUntouched", "call": "read_data", "arg": "param"},
+                                 f"read_data modified the parameter dictionary it was given: {psnap} -> {param}", {"hist": hist, "query": qy}))
+                param.clear()
+                param.update(psnap)
             if (list(it_arg), vars_arg) != snap:
                 findings.append(("ArgsUntouched", {"clause": "ArgsUntouched", "call": "read_data"},
                                  f"read_data modified its arguments: it {snap[0]} -> {it_arg}, vars {snap[1]} -> {vars_arg}",
